@@ -60,7 +60,7 @@ def run(chk: Check) -> None:
         for a in ("abc.MutableSet", "abc.MutableSequence", "abc.MutableMapping"):
             if c.is_subclass_of(a):
                 wrappers.append((c, a))
-    chk.floor("R16.3", "collection classes", len(wrappers), 9)
+    chk.floor("R16.3", "collection classes", len(wrappers), 6)
 
     for c, a in wrappers:
         _from_iterable(chk, abc, c, a)
@@ -79,7 +79,7 @@ def run(chk: Check) -> None:
         if rule == "R03.5" or (rule == "R03.3" and ("hook" in construct or prop == "C04")):
             chk.ob("R16.7", construct, ok, loc, msg, facts)
             k += 1
-    chk.floor("R16.7", "routing / pairing obligations", k, 30)
+    chk.floor("R16.7", "routing / pairing obligations", k, 21)
 
 
 # ---------------------------------------------------------------------------
@@ -336,7 +336,7 @@ def _list_hooks(chk: Check, types: TypeEnv) -> None:
                        "position may be stale"
                        % (f.qualname, hname, unparse(stale[0])[:40] if stale else "",
                           "; ".join(reentrant.get(hname, []))[:120]), 3)
-    chk.floor("R16.4", "ListWrapper store mutators", n_mut, 3)
+    chk.floor("R16.4", "ListWrapper store mutators", n_mut, 2)
 
 
 def _k(m: ast.AST) -> str:
@@ -496,7 +496,7 @@ def _index_unchanged(chk: Check) -> None:
                 chk.ob("R16.6", "%s:store-op-uses-argument" % f.qualname, ok, f.loc(uses[0]),
                        "%s applies %s to the wrapped list instead of the caller's index"
                        % (f.qualname, [unparse(u.slice) for u in uses]), 2)
-    chk.floor("R16.6", "ListWrapper item operations", n, 4)
+    chk.floor("R16.6", "ListWrapper item operations", n, 3)
 
 
 _OPS = {"__or__": ast.BitOr, "__and__": ast.BitAnd, "__sub__": ast.Sub, "__xor__": ast.BitXor}
@@ -729,4 +729,4 @@ def _delegation_table(chk: Check) -> None:
         chk.ob("R16.3", "DictWrapper.%s:delegates" % meth, ok, f.loc(),
                "DictWrapper.%s must be the same operation on self._data with the same key%s"
                % (meth, " and value" if kind is ast.Assign else ""), 2)
-    chk.floor("R16.3", "wrapper primitives compared with the store operation", n, 9)
+    chk.floor("R16.3", "wrapper primitives compared with the store operation", n, 6)
